@@ -10,7 +10,7 @@ ID = "C09"
 MODULE = "HttpcoreModel.Props.C09"
 THEOREMS = [f"Httpcore.C09.{n}" for n in ("idle_bound", "no_expired_left", "assigned_is_available_or_new", "reuse_first_available",
                                            "close_reasons", "idle_closed_only_for_reason", "eviction_reason", "source_counts_idle_only",
-                                           "close_reasons_counterexample_107", "in_use_survives_housekeeping", "in_use_h1_survives_housekeeping", "in_use_not_evicted", "cleanup_follows_source", "assign_follows_source")] + ["Httpcore.LifeProps.h1_in_use_view", "Httpcore.LifeProps.h2_in_use_view"] + ["Httpcore.LifeProps.h2_expiry_exact", "Httpcore.LifeProps.h1_expiry_exact", "Httpcore.LifeProps.h1_in_use_never_expires", "Httpcore.LifeProps.h2_in_use_never_expires", "Httpcore.LifeProps.h2_last_close_arms_expiry", "Httpcore.LifeProps.h1_count_exact"]
+                                           "close_reasons_counterexample_107", "in_use_survives_housekeeping", "in_use_h1_survives_housekeeping", "in_use_not_evicted", "cleanup_follows_source", "assign_follows_source", "dead_idle_h1_closed_by_pass", "expired_idle_h2_closed_by_pass", "live_idle_h1_not_expired")] + ["Httpcore.LifeProps.h1_in_use_view", "Httpcore.LifeProps.h2_in_use_view"] + ["Httpcore.LifeProps.h2_expiry_exact", "Httpcore.LifeProps.h1_expiry_exact", "Httpcore.LifeProps.h1_in_use_never_expires", "Httpcore.LifeProps.h2_in_use_never_expires", "Httpcore.LifeProps.h2_last_close_arms_expiry", "Httpcore.LifeProps.h1_count_exact"]
 TRUSTED = [
     'life-cycle of the connection objects (ConnLife.lean): gate, _response_closed, aclose and the status predicates are *translated* from http11.py / http2.py on every run (harness/lifetrans.py -> Gen.h1*/Gen.h2*); the remaining steps (stream opened / request backed out / GOAWAY / I/O failure recorded) are hand-written and tied by lock-step: instrumented sub-classes log every life-cycle event of the real objects and the Lean driver replays the log (harness/connlife.py, this run)',
     "Lean 4.33 kernel; axioms per theorem under coverage.theorems",
